@@ -5,6 +5,7 @@ from lzcommon import (LZCheckMixin, PropertyCheck, Case, Bad, compress_inputs, p
 
 class C08(LZCheckMixin, PropertyCheck):
     pid = "C08"
+    source_tables = ["LZ10_CONSTS", "LZ_DECODE_CONSTS"]   # tables / constants regenerated from /repo's source (gen/srctables.py)
     release_too = True
     rule = ("streams: all strings over 2 and 3 letters up to a length bound; every length of a run / period-2 / period-19 input; "
             "long runs around 4096; structured random inputs (runs, periods around the window edge, Thue-Morse, Fibonacci, incompressible, "
